@@ -190,3 +190,51 @@ Definition chk_named (c : rawcase) : float :=
     (devs dev_exact xo (lnth (out c) 0))
     (devs3 yo (lnth (out c) 1) scv)
     (devs3 eo (lnth (out c) 2) e2).
+
+(* ================= Fourier filter (C08, C09) ================= *)
+From PyStoG Require Import FilterM.
+
+Definition maxabs (l : list float) : float := fold_left (fun m x => fmax m (fabs x)) l 0%float.
+Definition span (l : list float) : float :=
+  (fix go l := match l with x0 :: ((x1 :: _) as l') => (fabs (x1 - x0) + go l')%float | _ => 0%float end) l.
+
+(* fl = [r; gr; q; y; dgr; dy]  sc = [rho; bcoh; btot; cutoff]
+   zs = [R; Q; has_dgr; has_dy; lorch; omitted; channel]
+   out = [q_ft; y_ft; q; y; r; g; dy_ft; dy; dg]
+   channel 0: the six value arrays, 1: the three uncertainty arrays, 2: all *)
+Definition chk_filter (c : rawcase) : float :=
+  let z := zs c in
+  let k := mkkw (sc c) (znth z 4) (znth z 5) in
+  let cutoff := fnth (sc c) 3 in
+  let r := lnth (fl c) 0 in let gr := lnth (fl c) 1 in let q := lnth (fl c) 2 in let y := lnth (fl c) 3 in
+  let dgr := opt_dy (znth z 2) (lnth (fl c) 4) in
+  let dy := opt_dy (znth z 3) (lnth (fl c) 5) in
+  let Rf := gfun_of (znth z 0) in let Qf := rfun_of (znth z 1) in
+  let o := filter_variant Rf Qf r gr q y cutoff dgr dy k in
+  (* --- magnitudes, from the g / Q[S-1] core --- *)
+  let '(g0, dg0) := gconv Rf gg r gr dgr k in
+  let '(f0, df0) := rconv Qf rF q y dy k in
+  let oc := g_using_F r g0 q f0 cutoff (Some dg0) (Some df0) k in
+  let '(rt, gt, dgt) := apply_cropping r g0 0%float cutoff (Some dg0) in
+  let '(Gtm, dGtm) := g_to_G rt (vadd_s 1%float gt) (Some dgt) k in
+  let lowx := if omitted k then maxabs (map (low_x_scale (lorch k) (vmin rt) (vmax rt) (hd 0%float Gtm)) q) else 0%float in
+  let sF := (atrapz rt Gtm + maxabs f0 + lowx)%float in
+  let lowx2 := if omitted k then maxabs (map (low_x_scale (lorch k) (vmin (q_c oc)) (vmax (q_c oc)) (hd 0%float (y_c oc))) (r_o oc)) else 0%float in
+  let sG := (two_over_pi * (atrapz (q_c oc) (y_c oc) + sF * span (q_c oc) + lowx2))%float in
+  let seF := (PrimFloat.sqrt (etrapz rt (map (fun e => e * e)%float dGtm)) + maxabs df0)%float in
+  let seG := (two_over_pi * PrimFloat.sqrt (etrapz (q_c oc) (map (fun _ => 4 * seF * seF)%float (q_c oc))))%float in
+  let sc_recip (qq yy : list float) :=
+    let '(v1, _) := rconv rF Qf qq yy None k in
+    let '(v2, e2) := rconv rF Qf qq (vadd_s sF yy) (Some (map (fun _ => seF) qq)) k in
+    (map2 (fun a b => fabs (a - b)%float) v2 v1, e2) in
+  let '(s1, e1) := sc_recip (q_ft oc) (y_ft oc) in
+  let '(s2, e2) := sc_recip (q_c oc) (y_c oc) in
+  let '(G1, _) := g_to_G (r_o oc) (g_o oc) None k in
+  let '(w1, _) := gconv gG Rf (r_o oc) G1 None k in
+  let '(w2, e3) := gconv gG Rf (r_o oc) (vadd_s sG G1) (Some (map (fun _ => seG) (r_o oc))) k in
+  let s3 := map2 (fun a b => fabs (a - b)%float) w2 w1 in
+  let ou := out c in
+  let dgrid := fmax (devs dev_exact (q_ft o) (lnth ou 0)) (fmax (devs dev_exact (q_c o) (lnth ou 2)) (devs dev_exact (r_o o) (lnth ou 4))) in
+  let dval := fmax (devs3 (y_ft o) (lnth ou 1) s1) (fmax (devs3 (y_c o) (lnth ou 3) s2) (devs3 (g_o o) (lnth ou 5) s3)) in
+  let derr := fmax (devs3 (dy_ft o) (lnth ou 6) e1) (fmax (devs3 (dy_c o) (lnth ou 7) e2) (devs3 (dg_o o) (lnth ou 8) e3)) in
+  sel_channel (znth z 6) dgrid dval derr.
